@@ -184,6 +184,16 @@ func (w *World) applyBlock(t *MTxn, block uint32) {
 // onReserve is the C11 oracle at the moment an insert is handed its offset.
 func (w *World) onReserve(off uint32) {
 	m := w.model
+	_, reservedByOther := m.Reserved[off]
+	if _, live := m.Rows[off]; (live || reservedByOther) && w.ttl != nil && w.ttl.vCommitting[off>>14] {
+		// the cleanup is inside its commit of this block: its delete markers are applied, its
+		// commit not yet emitted; the library handing out this offset means the cleanup freed it
+		w.vacuumRemoves(off)
+		w.ttl.earlyRemoved[off] = true
+		if w.viol != nil {
+			return
+		}
+	}
 	if _, live := m.Rows[off]; live {
 		w.fail(violation("insert-collision/live", "insert was handed offset %d which holds a live row", off))
 		return
